@@ -128,8 +128,13 @@ func AliasLeafPointers(root interface{}, pick func() bool) int {
 			switch Classify(t.Field(i)) {
 			case FLeaf, FLeafList:
 				if (f.Kind() == reflect.Ptr && !f.IsNil() && f.Elem().Kind() != reflect.Struct) || (f.Kind() == reflect.Slice && f.Len() > 0) {
-					// scalar leaves share a pointer; leaf-lists and binary values share a backing array
+					// scalar leaves share a pointer; leaf-lists and binary values share a backing array.
+					// Slice-typed leaves are never list keys, so they may also take over the first one's
+					// content (this runs on the initial tree, before any history starts): grouped by type.
 					k := f.Type().String() + "=" + Render(f)
+					if f.Kind() == reflect.Slice {
+						k = f.Type().String()
+					}
 					if _, ok := groups[k]; !ok {
 						order = append(order, k)
 					}
